@@ -151,6 +151,22 @@ def run(ctx):
                 law("power=mean|s+n|^2", np.atleast_1d(obj.power()), np.atleast_1d(np.mean(np.abs(tot) ** 2, axis=-1)))
                 law("power=mean|s+n|^2", np.atleast_1d(obj.power("signal")), np.atleast_1d(np.mean(np.abs(obj.signal) ** 2, axis=-1)))
         ctx.case(("laws", n, type(obj).__name__, npol, noisy, real, it % 5, scale, eqrows))
+    # the axis follows the sampling rate in force now: the same record length and the same samples per slot under another rate before
+    for cfgs in ([dict(sps=16, R=1e9), dict(sps=16, R=2.5e9), dict(sps=16, R=1e9)], [dict(sps=8, R=10e9), dict(sps=8, fs=40e9), dict(sps=8, R=1.25e9)],
+                 [dict(sps=5, R=1e9, N=7), dict(sps=5, R=3e9, N=7)]):
+        for n in (64, 35):
+            obj = electrical_signal(np.arange(n) + 0.5)
+            obj2 = optical_signal(np.array([np.arange(n) + 0.5j, np.ones(n)]))
+            for cfg_ in cfgs:
+                with warnings.catch_warnings():
+                    warnings.simplefilter("ignore")
+                    gv(**cfg_)
+                fs = gv.fs
+                k_axis = np.fft.fftfreq(n) * n
+                for o_ in (obj, obj2):
+                    law("w()=2pi*k*fs/N", o_.w() + fs * 10, 2 * math.pi * k_axis * fs / n + fs * 10)
+                    law("w(shift)=2pi*k*fs/N", o_.w(True) + fs * 10, np.fft.fftshift(2 * math.pi * k_axis * fs / n) + fs * 10)
+        ctx.case(("axis-after-reconfiguration", cfgs[0].get("sps")))
     gv.clean()
     for idx, clause in ctx.validate("SpectralTrace", events, note="transform laws"):
         ctx.violation(f"law:{clause}", f"law {meta[idx - 1]} rejected: {events[idx - 1]}", {"event": events[idx - 1]})
